@@ -29,6 +29,7 @@ func c15(c *Ctx) {
 	verifyCommitRule(c, "R7")
 	valsetCacheRule(c, "R8")
 	c15R9(c)
+	c15R10(c)
 }
 
 const gbi = "gemmill/types.(*ValidatorSet).GetByIndex(a0.valSet,a1.ValidatorIndex)"
